@@ -67,6 +67,34 @@ add("C11", "c11_reject_exchange_code_others_set", "reject",
     code="E0599", needle="exchange_code")
 
 
+# ---- C10: compile-time facts about the secret types
+SECRET_TYPES = ["ClientSecret", "AuthorizationCode", "AccessToken", "RefreshToken", "PkceCodeVerifier", "CsrfToken",
+                "ResourceOwnerPassword", "DeviceCode", "UserCode", "VerificationUriComplete"]
+TIMING = ("timing-resistant-secret-traits",)
+for t in SECRET_TYPES:
+    mk = "%s::new(\"x\".to_string())" % t
+    add("C10", "c10_reject_display_%s" % t, "reject", "fn main() { let s = %s; println!(\"{}\", s); }" % mk, code="E0277", needle=t)
+    add("C10", "c10_reject_eq_%s" % t, "reject", "fn main() { let a = %s; let b = %s; let _ = a == b; }" % (mk, mk), code="E0369", needle=t)
+    add("C10", "c10_reject_deref_%s" % t, "reject", "fn main() { let a = %s; let _s: &str = &*a; }" % mk, code="E0614", needle=t)
+    add("C10", "c10_reject_into_string_%s" % t, "reject", "fn main() { let a = %s; let _s: String = a.into(); }" % mk, code="E0277", needle=t)
+add("C10", "c10_reject_hash_off", "reject", "fn main() { let mut h = std::collections::HashSet::new(); h.insert(ClientSecret::new(\"x\".to_string())); }", code="E0277", needle="ClientSecret")
+add("C10", "c10_reject_clone_verifier", "reject", "fn main() { let a = PkceCodeVerifier::new(\"x\".to_string()); let _b = a.clone(); }", code="E0599", needle="clone")
+add("C10", "c10_accept_clone_others", "accept",
+    "fn main() { %s }" % " ".join("let _ = %s::new(\"x\".to_string()).clone();" % t for t in SECRET_TYPES if t != "PkceCodeVerifier"))
+add("C10", "c10_accept_accessor", "accept",
+    "fn main() { %s }" % " ".join("let a = %s::new(\"x\".to_string()); let _s: &String = a.secret(); let _t: String = a.into_secret();" % t for t in SECRET_TYPES))
+add("C10", "c10_accept_debug", "accept",
+    "fn main() { %s }" % " ".join("println!(\"{:?}\", %s::new(\"x\".to_string()));" % t for t in SECRET_TYPES))
+add("C10", "c10_reject_debug_device_access_token_request", "reject",
+    "fn main() { let c = full(); let d = details(); let r = c.exchange_device_access_token(&d); println!(\"{:?}\", r); }", code="E0277", needle="DeviceAccessTokenRequest")
+add("C10", "c10_accept_eq_hash_timing", "accept",
+    "fn main() { %s }" % " ".join(
+        "{ let a = %s::new(\"x\".to_string()); let b = %s::new(\"x\".to_string()); assert!(a == b); }" % (t, t) for t in SECRET_TYPES)
+    + " fn _h() { let mut h = std::collections::HashSet::new(); h.insert(ClientSecret::new(\"x\".to_string())); }", features=TIMING)
+add("C10", "c10_reject_display_timing", "reject", "fn main() { println!(\"{}\", ClientSecret::new(\"x\".to_string())); }", code="E0277", needle="ClientSecret", features=TIMING)
+add("C10", "c10_reject_clone_verifier_timing", "reject", "fn main() { let a = PkceCodeVerifier::new(\"x\".to_string()); let _b = a.clone(); }", code="E0599", needle="clone", features=TIMING)
+
+
 def write_crate(probes, features):
     d = os.path.join(PROBE_DIR, "f_" + ("_".join(features) if features else "none"))
     os.makedirs(os.path.join(d, "src", "bin"), exist_ok=True)
